@@ -144,7 +144,9 @@ def _kb_cases():
 def DiscreteKoyama_kernel(self, k, n):
     # the documented definition: sin(B k)/(B k) exp(-A^2 k^2),  A^2 = <r^2>(1-C)/6,  B^2 = C <r^2>,  C^2 = (5 - 3<r^4>/<r^2>^2)/2
     r2, r4 = self.kernel_base(n)
+    require(0.5 * (5 - 3 * r4 / (r2 * r2)) >= 0)      # valid chain parameters (the code raises ValueError('Bad chain parameters') otherwise)
     C = sqrt(0.5 * (5 - 3 * r4 / (r2 * r2)))
+    require(C * r2 >= 0)
     B = sqrt(C * r2)
     Asq = r2 * (1 - C) / 6
     return pointwise(k.shape, lambda m: sin(B * k[m]) / (B * k[m]) * exp(-Asq * k[m] * k[m]))
